@@ -122,10 +122,75 @@ def build_order(objs, bo):
     return out
 
 
+def magnify(spec, factor, offset=0):
+    """The part spec at another magnitude of its numbers of ticks ("mag" field of a case = [factor, offset]):
+    every timeline time t and every divisions value q becomes factor * t and factor * q - the same music on a finer
+    tick grid (every quarter length, symbolic duration and reference value of the spec is unchanged, every number of
+    ticks that is written into the file is `factor` times larger); offset > 0 then puts an empty irregular measure of
+    `offset` ticks (in the first divisions value) before the music: measure 1 = [0, offset) with the name "L", all
+    other measures renumbered, every time t > 0 and every object that is not part of the opening (page, system and the
+    time signature / key signature / clefs at time 0 stay at 0) moved by `offset` ticks.  Returns a new spec."""
+    import copy
+
+    spec = copy.deepcopy(spec)
+    F, off = int(factor), int(offset)
+    if F < 1 or off < 0:
+        raise ValueError("bad magnitude %r" % ((factor, offset),))
+
+    def tm(t, opening=False):
+        if t is None:
+            return None
+        return F * t + (0 if (opening and t == 0) else off)
+
+    spec["divs"] = [[tm(t, True), F * q] for t, q in spec.get("divs", [[0, 1]])]
+    if spec.get("qh") is not None:
+        qh = spec["qh"]
+        spec["qh"] = {"init": F * qh["init"], "calls": [[cut, tm(t, True), F * q] for cut, t, q in qh["calls"]]}
+    first_measure = None
+    for i, o in enumerate(spec["objs"]):
+        k = o["k"]
+        if k in ("page", "system"):
+            if o.get("s") is not None:
+                o["s"] = tm(o["s"], True)
+            if o.get("e") is not None:
+                o["e"] = tm(o["e"])
+            continue
+        opening = k in ("ts", "ks", "clef")
+        for key in ("s", "e"):
+            if o.get(key) is not None:
+                o[key] = tm(o[key], opening and key == "s")
+        if k == "measure":
+            if first_measure is None:
+                first_measure = i
+            if off:
+                o["number"] = o["number"] + 1
+    if off:
+        if first_measure is None:
+            raise ValueError("a part without measures cannot be moved")
+        spec["objs"].insert(first_measure, {"k": "measure", "s": 0, "e": off, "number": 1, "name": "L"})
+    return spec
+
+
+def _magnified(part_spec, case):
+    mag = case.get("mag")
+    if not mag:
+        return part_spec
+    return magnify(part_spec, mag[0], mag[1] if len(mag) > 1 else 0)
+
+
 def expand(case):
     sp = case["sp"]
     if "score" in case:
         return case["score"]
+    if "mag" in case:
+        # magnitude of the numbers of ticks [factor, offset] (magnify): holds for every part of the case
+        base = expand({k: v for k, v in case.items() if k != "mag"})
+
+        def rec(x):
+            if "group" in x:
+                return dict(x, children=[rec(y) for y in x["children"]])
+            return _magnified(x, case)
+        return {"parts": [rec(x) for x in base["parts"]]}
     if "parts" in case:
         nf = case.get("nf")  # a number form of the case holds for all its parts and groups
 
@@ -1051,6 +1116,91 @@ def gen_F_repeats():
                     continue
                 yield {"sp": "F", "m": [[0, 2], [2, 4], [4, 6]], "ts": [[0, 1, 4]], "ev": ev,
                        "rep": [list(x) for x in r], "end": [list(x) for x in en]}
+
+
+# ---------------------------------------------------------------------------------------------
+# M: magnitude of the numbers of ticks (the small families above on a fine tick grid / far from time 0)
+
+# divisions factors: the unit grids of the other sub-spaces have 1-4 divisions per quarter; 480 and 10080 are the
+# grids of sequencers and notation programs, 302400 = 2^6 3^3 5^2 7 (a grid for all tuplets up to 10 and 64th notes:
+# a whole note has more than 10^6 ticks), 2^24 + 1 and 2^31 + 1 (not exact in float32 / beyond int32)
+MAG_FACTORS = (1, 480, 10080, 302400, 2 ** 24 + 1, 2 ** 31 + 1)
+# length in ticks of an empty irregular measure before the music (magnify)
+MAG_OFFSETS = (0, 2 ** 24 + 1, 2 ** 31 + 1)
+
+
+def magnitudes():
+    """every [factor, offset] of MAG_FACTORS x MAG_OFFSETS but [1, 0] (the unchanged case)"""
+    return [[f, o] for f in MAG_FACTORS for o in MAG_OFFSETS if (f, o) != (1, 0)]
+
+
+def gen_M(family, name):
+    """every case of the family (a zero-argument generator of cases without a magnitude) at every magnitude of
+    magnitudes(); the magnitude is the outer loop, so an index-stride block holds cases of every magnitude"""
+    def it():
+        for mag in magnitudes():
+            for c in family():
+                yield dict(c, sp=name, mag=list(mag))
+    return it
+
+
+def fam_M_cores():
+    """one 2/4 measure (4 units of an eighth), all sets of <= 2 events: span x voice{1,2} (staff = voice) x {note,
+    rest}, with explicit symbolic durations and with the symbolic durations left to the library"""
+    for nosym in (False, True):
+        for c in gen_A_kinds(("n", "r"), nosym=nosym):
+            yield c
+
+
+def fam_M_divisions():
+    """the cases of gen_D_divisions (all cores of <= 2 events that do not cross the change) with the divisions
+    change q0 -> q1 in (1,2), (2,1) in the middle of a 2/4 measure and at the barline of two 1/4 measures, and in
+    (2,3), (3,2) in the middle of a 2/4 measure"""
+    for c in gen_D_divisions():
+        pair = (c["q"][0][1], c["q"][1][1])
+        if pair in ((1, 2), (2, 1)) or (pair in ((2, 3), (3, 2)) and len(c["m"]) == 1):
+            yield c
+
+
+def fam_M_ties():
+    return gen_B_ties(False)
+
+
+_TIMED_DECOS = ("nferm", "dyn", "sfz", "tempodir", "tempo", "dynwords", "wedge", "bferm")
+
+
+def fam_M_decorations():
+    """gen_C_single on the 1-note cores of one 2/4 measure and of two 1/4 measures, the decoration instances that
+    are objects of the timeline (note fermata, dynamics, sfz, tempo word, tempo mark, words with and without
+    dashes, wedges, barline fermata) at every grid time / time interval"""
+    L1 = ([(0, 4)], [[0, 2, 4]])
+    L2 = ([(0, 2), (2, 4)], [[0, 1, 4]])
+    for L in (L1, L2):
+        for c in gen_C_single(L, 1, 1):
+            if c["deco"][0][0] in _TIMED_DECOS:
+                yield c
+
+
+def fam_M_features():
+    """the feature cores N_FEATURE_CORES (two staves, unequal chord, grace note, clef and key change, triplet
+    brackets against a second voice, divisions change with a tie over the barline, repeat and ending, pickup measure,
+    unpitched and dotted notes, wedge, nested part groups), every single triplet bracket of gen_C_tuplets, all
+    chord ties of gen_B_chordties, all part/group forests of gen_E_structure (parts with different divisions), every
+    single key / time / clef change of gen_D_attributes and all repeats and endings of gen_F_repeats"""
+    for core in N_FEATURE_CORES:
+        yield dict(core)
+    for c in gen_C_tuplets(False):
+        if len(c["deco"]) == 1:
+            yield c
+    for c in gen_B_chordties():
+        yield c
+    for c in gen_E_structure():
+        yield c
+    for c in gen_D_attributes():
+        if len(c["attr"]) == 1:
+            yield c
+    for c in gen_F_repeats():
+        yield c
 
 
 # ---------------------------------------------------------------------------------------------
